@@ -9,6 +9,13 @@
 //! run before the first item, after every item (tag T) and as the body of the
 //! commands (tag I).  Coq replays the items on the model (`Yv.C09.Model`) and
 //! evaluates the oracle (`Yv.C09.Spec.oracle_cmd`) on the observations.
+//!
+//! Stream `failure-points` (`failure_point_stream`): lists of 1-3 redirections
+//! that succeed when nothing constrains allocation, under descriptor limits
+//! chosen so that each allocation step of `perform` in turn is the first to
+//! fail (saving dup of the 1st/2nd/3rd redirection, open, here-document file,
+//! dup2 onto the target).  These scripts end with `echo Z9`: besides the
+//! tables, the harness checks that this text reaches the standard output.
 
 use std::cell::RefCell;
 use std::io::SeekFrom;
@@ -817,17 +824,24 @@ struct Ctx {
     startup_limit: Option<u64>,
     /// `yash -i -c SCRIPT`
     interactive: bool,
+    /// the script ends with `echo Z9`: if the shell gets there and descriptor 1
+    /// is bound as at the beginning, the text must reach the standard output
+    marker: bool,
 }
 
 /// (the script, the files read by the . built-in)
-fn build(items: &[Item]) -> (String, Vec<(usize, String)>) {
+fn build(items: &[Item], marker: bool) -> (String, Vec<(usize, String)>) {
     let mut defs = Defs::default();
     let body = items_text(items, &mut defs);
-    (format!("{PREAMBLE}{}fds T\n{body}", defs.text), defs.scripts)
+    let tail = if marker { MARKER_LINE } else { "" };
+    (format!("{PREAMBLE}{}fds T\n{body}{tail}", defs.text), defs.scripts)
 }
 
-fn script_of(items: &[Item]) -> String {
-    let (mut script, dots) = build(items);
+const MARKER: &str = "Z9\n";
+const MARKER_LINE: &str = "echo Z9\n";
+
+fn script_of(items: &[Item], marker: bool) -> String {
+    let (mut script, dots) = build(items, marker);
     for (i, c) in dots {
         script.push_str(&format!("--- /s{i} ---\n{c}"));
     }
@@ -847,7 +861,7 @@ fn run_case(init: &InitFiles, items: &[Item], ctx: &Ctx) -> Outcome {
     SEEN.with(|s| s.borrow_mut().clear());
     OBS.with(|o| o.borrow_mut().clear());
     PRE.with(|p| *p.borrow_mut() = None);
-    let (script, dots) = build(items);
+    let (script, dots) = build(items, ctx.marker);
     let mut files: Vec<(String, Vec<u8>)> = vec![];
     for (k, c) in &init.files {
         if let Some(c) = c {
@@ -945,9 +959,21 @@ fn run_case(init: &InitFiles, items: &[Item], ctx: &Ctx) -> Outcome {
             }
         };
     }
+    let fin_copy = fin.clone();
     let mut parser = Parser { it, fin, steps, problem, gave_up: false };
     parser.items(items);
-    let Parser { steps, problem, gave_up, .. } = parser;
+    let Parser { steps, mut problem, gave_up, .. } = parser;
+    // visible effect: the shell reached the end of the script with descriptor 1
+    // bound to what it was bound to at the beginning, so the text written by
+    // the last command must be at the end of the standard output
+    if ctx.marker && problem.is_none() && !gave_up && steps.iter().all(|(_, _, _, ex)| !*ex) {
+        let fd1 = |o: &Obs| o.tab.iter().find(|(fd, _, _)| *fd == 1).map(|(_, l, _)| *l);
+        if let Some(f) = &fin_copy {
+            if fd1(&init_obs).is_some() && fd1(&init_obs) == fd1(f) && !o.stdout.ends_with(MARKER) {
+                problem = Some("the text written by the command after the last one did not reach the standard output".into());
+            }
+        }
+    }
     Outcome { gave_up, init: init_obs, steps, problem }
 }
 
@@ -1128,6 +1154,9 @@ fn random_init(r: &mut Rng) -> InitFiles {
 struct Emitter {
     w: CasesWriter,
     discarded: usize,
+    /// of the case emitted last: per command step, its kind and whether its
+    /// body was seen running
+    last_cmds: Vec<(Kind, bool)>,
 }
 
 impl Emitter {
@@ -1145,7 +1174,7 @@ impl Emitter {
         };
         let out = run_case(init, items, ctx);
         let script_file = ctx.script_file;
-        let (script_text, dots) = build(items);
+        let (script_text, dots) = build(items, ctx.marker);
         let script_opt = if script_file { Some(script_text.as_str()) } else { None };
         if out.gave_up {
             self.discarded += 1;
@@ -1228,7 +1257,7 @@ impl Emitter {
                 if script_file { "yash /s" } else if ctx.interactive { "yash -i -c" } else { "yash -c" },
                 ctx.startup_limit.map(|l| format!(" (descriptor limit {l} from the start)")).unwrap_or_default()
             )),
-            json_str(&script_of(items)),
+            json_str(&script_of(items, ctx.marker)),
             json_str(out.problem.as_deref().unwrap_or("")),
             json_str(&obs_show(&out.init)),
             yv_harness::json_str_list(&shown)
@@ -1242,6 +1271,14 @@ impl Emitter {
         } else {
             "context:command-string"
         });
+        self.last_cmds = out
+            .steps
+            .iter()
+            .filter_map(|(of, inside, _, _)| match of {
+                StepOf::Cmd(k, _) => Some((*k, inside.is_some())),
+                _ => None,
+            })
+            .collect();
         let mut failed = 0;
         let mut ran = 0;
         let mut max_saved = 0;
@@ -1298,15 +1335,15 @@ impl Emitter {
         }
         self.w.count(&format!("commands-refused:{}", failed.min(4)));
         self.w.count(&format!("max-saved-descriptors:{}", max_saved.min(5)));
-        let key = if ran >= 1 && (failed >= 1 || max_saved >= 2) { Some(script_of(items)) } else { None };
+        let key = if ran >= 1 && (failed >= 1 || max_saved >= 2) { Some(script_of(items, ctx.marker)) } else { None };
         self.w.push(&term, &json, tags, key);
         true
     }
 }
 
-const CMD: Ctx = Ctx { script_file: false, startup_limit: None, interactive: false };
-const FILE: Ctx = Ctx { script_file: true, startup_limit: None, interactive: false };
-const INTERACTIVE: Ctx = Ctx { script_file: false, startup_limit: None, interactive: true };
+const CMD: Ctx = Ctx { script_file: false, startup_limit: None, interactive: false, marker: false };
+const FILE: Ctx = Ctx { script_file: true, startup_limit: None, interactive: false, marker: false };
+const INTERACTIVE: Ctx = Ctx { script_file: false, startup_limit: None, interactive: true, marker: false };
 
 fn rd(fd: u64, body: Body) -> Redir {
     Redir { fd, body, explicit: true }
@@ -1388,6 +1425,19 @@ fn corpus() -> Vec<(InitFiles, Vec<Item>)> {
                 cmd(Kind::Exec, vec![rd(10, File(Fop::In, Some(3)))]),
                 cmd(Kind::Regular, vec![rd(10, Dup(true, Darg::Close)), rd(0, File(Fop::In, Some(3)))]),
                 cmd(Kind::Regular, vec![rd(3, Dup(true, Darg::Fd(10))), rd(0, File(Fop::In, Some(3)))]),
+            ],
+        ),
+        // `echo x >out 2>/no/such/dir/err; echo after`: the first redirection
+        // succeeds, the second fails; the next command must see the old table
+        (
+            std_init(),
+            vec![
+                cmd(Kind::Regular, vec![Redir { fd: 1, body: File(Fop::Out, Some(4)), explicit: false }, rd(2, File(Fop::Out, None))]),
+                cmd(Kind::Regular, vec![]),
+                cmd(Kind::Function, vec![rd(1, File(Fop::Out, Some(4))), rd(3, File(Fop::Out, Some(6))), rd(0, File(Fop::In, Some(5)))]),
+                cmd(Kind::Regular, vec![]),
+                cmd(Kind::Group, vec![rd(1, File(Fop::Out, Some(4))), rd(4, File(Fop::In, Some(5)))]),
+                cmd(Kind::Regular, vec![]),
             ],
         ),
         // a pipeline whose second pipe cannot be made (the read end of the first
@@ -1644,6 +1694,139 @@ fn link_stream(e: &mut Emitter, seed: u64) {
     let _ = std::fs::remove_dir_all(&scratch);
 }
 
+/// Which allocation step of `perform` the limit cuts off first for this list,
+/// given the descriptors open before the command (the lists of this stream fail
+/// for no other reason).  Used for the histogram only.
+fn predict_failure_point(open: &[u64], lim: u64, redirs: &[Redir]) -> Option<&'static str> {
+    let mut set: Vec<u64> = open.to_vec();
+    let min_unused = |set: &Vec<u64>, from: u64| (from..).find(|x| !set.contains(x)).unwrap();
+    for (i, r) in redirs.iter().enumerate() {
+        let mut save = None;
+        if set.contains(&r.fd) {
+            let s = min_unused(&set, 10);
+            if s >= lim {
+                return Some(match i {
+                    0 => "save-dup(1st redirection)",
+                    1 => "save-dup(2nd redirection)",
+                    _ => "save-dup(3rd redirection)",
+                });
+            }
+            set.push(s);
+            save = Some(s);
+        }
+        let _ = save;
+        match &r.body {
+            Body::File(..) | Body::Here(_) => {
+                let o = min_unused(&set, 0);
+                if o >= lim {
+                    return Some(if matches!(r.body, Body::Here(_)) { "here-document-file" } else { "open" });
+                }
+                if o != r.fd && r.fd >= lim {
+                    return Some("dup2-to-target");
+                }
+                if !set.contains(&r.fd) {
+                    set.push(r.fd);
+                }
+            }
+            Body::Dup(_, Darg::Fd(n)) => {
+                if *n != r.fd && r.fd >= lim {
+                    return Some("dup2-to-target");
+                }
+                if !set.contains(&r.fd) {
+                    set.push(r.fd);
+                }
+            }
+            Body::Dup(_, Darg::Close) => set.retain(|x| *x != r.fd),
+            _ => return None,
+        }
+    }
+    None
+}
+
+fn failure_point_stream(e: &mut Emitter, args: &Args) {
+    use Body::*;
+    let std_init = || InitFiles {
+        files: vec![(3, Some(b"AAA".to_vec())), (4, Some(b"BB".to_vec())), (5, None), (6, None), (8, None)],
+    };
+    let here = || Here("h\n".to_string());
+    let lists: Vec<Vec<Redir>> = vec![
+        // one redirection, open target
+        vec![Redir { fd: 1, body: File(Fop::Out, Some(4)), explicit: false }],
+        vec![rd(1, File(Fop::Clobber, Some(4)))],
+        vec![rd(1, File(Fop::Append, Some(6)))],
+        vec![rd(1, File(Fop::InOut, Some(4)))],
+        vec![rd(1, Dup(false, Darg::Fd(2)))],
+        vec![rd(1, Dup(false, Darg::Close))],
+        vec![Redir { fd: 0, body: File(Fop::In, Some(3)), explicit: false }],
+        vec![rd(0, here())],
+        vec![rd(0, Dup(true, Darg::Close))],
+        vec![rd(2, File(Fop::Out, Some(6)))],
+        vec![rd(2, Dup(false, Darg::Fd(1)))],
+        // one redirection, closed target
+        vec![rd(5, File(Fop::Out, Some(4)))],
+        vec![rd(5, File(Fop::In, Some(3)))],
+        vec![rd(5, here())],
+        vec![rd(5, Dup(false, Darg::Fd(1)))],
+        // two
+        vec![rd(1, File(Fop::Out, Some(4))), rd(2, Dup(false, Darg::Fd(1)))],
+        vec![rd(0, File(Fop::In, Some(3))), rd(1, File(Fop::Out, Some(4)))],
+        vec![rd(1, File(Fop::Out, Some(4))), rd(1, File(Fop::Out, Some(6)))],
+        vec![rd(5, File(Fop::In, Some(3))), rd(0, Dup(true, Darg::Fd(5)))],
+        vec![rd(0, here()), rd(1, File(Fop::Append, Some(6)))],
+        vec![rd(2, File(Fop::Out, Some(6))), rd(1, Dup(false, Darg::Fd(2)))],
+        // three
+        vec![rd(0, File(Fop::In, Some(3))), rd(1, File(Fop::Out, Some(4))), rd(2, File(Fop::Out, Some(6)))],
+        vec![rd(1, File(Fop::Out, Some(4))), rd(2, Dup(false, Darg::Fd(1))), rd(0, here())],
+        vec![rd(5, File(Fop::Out, Some(4))), rd(6, File(Fop::In, Some(3))), rd(1, Dup(false, Darg::Fd(5)))],
+        vec![rd(1, File(Fop::Out, Some(4))), rd(1, File(Fop::Out, Some(6))), rd(1, Dup(false, Darg::Fd(2)))],
+    ];
+    let kinds = [Kind::Regular, Kind::Function, Kind::Group, Kind::Subshell, Kind::NotFound];
+    let marker_cmd = Ctx { marker: true, ..CMD };
+    let marker_file = Ctx { marker: true, ..FILE };
+    // (descriptors 3-9 taken?, started from a file?, limits)
+    let plans: Vec<(bool, bool, Vec<u64>)> = if args.thorough() {
+        vec![
+            (false, false, (3..=14).collect()),
+            (false, true, (11..=15).collect()),
+            (true, false, (10..=14).collect()),
+            (true, true, (11..=15).collect()),
+        ]
+    } else {
+        vec![(false, false, vec![3, 4, 10, 11, 12]), (false, true, vec![11, 12]), (true, false, vec![10, 11, 12])]
+    };
+    for (li, rs) in lists.iter().enumerate() {
+        for (fill, file, limits) in &plans {
+            for l in limits {
+                let mut items = vec![];
+                let mut open: Vec<u64> = vec![0, 1, 2];
+                if *fill {
+                    items.push(Item::Cmd(Kind::Exec, 0, (3..10).map(|n| rd(n, File(Fop::In, Some(3)))).collect()));
+                    open.extend(3..10);
+                }
+                if *file {
+                    open.push(10);
+                }
+                items.push(Item::Limit(Some(*l)));
+                for (ki, k) in kinds.iter().enumerate() {
+                    items.push(Item::Cmd(*k, li + ki, rs.clone()));
+                }
+                let ctx = if *file { &marker_file } else { &marker_cmd };
+                if e.emit("failure-points", &std_init(), &items, ctx, &[]) {
+                    let p = predict_failure_point(&open, *l, rs);
+                    // the prediction is checked against what the regular built-in did
+                    let ran = e.last_cmds.iter().find(|(k, _)| *k == Kind::Regular).map(|(_, ran)| *ran);
+                    if ran == Some(p.is_none()) {
+                        e.w.count(&format!("failure-point:{}", p.unwrap_or("none(all steps succeed)")));
+                    } else {
+                        e.w.count("failure-point:not-classified");
+                    }
+                    e.w.count(&format!("failure-point-list-length:{}", rs.len()));
+                }
+            }
+        }
+    }
+}
+
 fn main() {
     let args = Args::parse();
     if let Some(script) = args.opt("explore") {
@@ -1656,7 +1839,7 @@ fn main() {
     }
     let mut rng = Rng::new(args.seed);
     let w = CasesWriter::new(&args, "Yv.C09.Run", if args.thorough() { 120 } else { 40 });
-    let mut e = Emitter { w, discarded: 0 };
+    let mut e = Emitter { w, discarded: 0, last_cmds: vec![] };
 
     // 1. corpus
     for (init, items) in corpus() {
@@ -1958,7 +2141,7 @@ fn main() {
                 }
                 // limit in force from the start: the shell opens its own script
                 if args.thorough() || (l as usize + ti) % 2 == 1 {
-                    let ctx = Ctx { script_file: true, startup_limit: Some(l), interactive: false };
+                    let ctx = Ctx { script_file: true, startup_limit: Some(l), interactive: false, marker: false };
                     e.emit(&stream, &std_init(), items, &ctx, &[]);
                 }
             }
@@ -1967,6 +2150,15 @@ fn main() {
             e.emit(&format!("own-descriptors:{name}"), &std_init(), items, &INTERACTIVE, &[]);
         }
     }
+    // 2d. every allocation step of `perform` made to fail by the limit: lists
+    //     of 1-3 redirections that succeed when nothing constrains allocation
+    //     (every operator; open and closed targets), on the kinds of command
+    //     that do not end the shell, under limits that cut off the saving dup
+    //     (no slot at 10 or above), the open / the here-document file (no slot
+    //     at all), the dup2 onto the target (target at or above the limit), the
+    //     second and the third saving dup - started from a command string, from
+    //     a script file (descriptor 10 in use) and with descriptors 3-9 taken
+    failure_point_stream(&mut e, &args);
     // 3. random scripts
     let n = args.scale(260, 8000);
     for k in 0..n {
@@ -1977,7 +2169,7 @@ fn main() {
         let ctx = match r.below(8) {
             0..=3 => CMD,
             4..=5 => FILE,
-            6 => Ctx { script_file: true, startup_limit: Some(r.range(11, 16) as u64), interactive: false },
+            6 => Ctx { script_file: true, startup_limit: Some(r.range(11, 16) as u64), interactive: false, marker: false },
             _ => INTERACTIVE,
         };
         e.emit("random", &init, &items, &ctx, &[]);
